@@ -340,6 +340,20 @@ fn gen_c11(tier: &Tier, rng: &mut Rng, _w: usize, nw: usize, out: &mut Vec<Case>
                     ]),
                 );
             }
+        } else if rng.chance(1, 3) {
+            // end of input reported in the middle of the stream (a reader returning Ok(0), a non-fused
+            // iterator returning None), then more data
+            let j = rng.below(s.len() + 1);
+            let ncalls = s.len() / 8 + 6;
+            let k = if rng.chance(1, 2) { "io" } else { "mem" };
+            out.push(
+                Case::new("eof-midstream", vec![
+                    format!("rdr {} {} {} {} E {}", k, ct, calls('n', 2 * ncalls), tok(&s[..j]), tok(&s[j..])),
+                    format!("rdr {} {} {} {}", k, ct, calls('n', ncalls), tok(&s[..j])),
+                    format!("rdr {} {} {} {}", k, ct, calls('n', ncalls), tok(&s[j..])),
+                    format!("rdr {} {} {} {} E {}", k, ct, calls('r', 2 * ncalls), tok(&s[..j]), tok(&s[j..])),
+                ]),
+            );
         } else {
             // one hard error at a random position
             let j = rng.below(s.len() + 1);
